@@ -1,4 +1,6 @@
 import Whv.Gen.C07
+import Whv.Model.Contract
+import Whv.Props.C06
 /-!
 # C07 — quorum threshold = ⌊2n/3⌋+1 in the node and both contracts, and BFT-safe
 
@@ -36,10 +38,185 @@ theorem at_most_n (n : Nat) (h : 0 < n) : goQuorum n ≤ n := by
 /-- Any two quorums (sets of at least `goQuorum n` of `n` guardians; by inclusion–exclusion their
 intersection has at least `a + b - n` members) share more than a third of the guardians. -/
 theorem two_quorums_intersect (n a b : Nat) (ha : goQuorum n ≤ a) (hb : goQuorum n ≤ b)
-    (han : a ≤ n) (hbn : b ≤ n) : n < 3 * (a + b - n) := by
+    (_han : a ≤ n) (_hbn : b ≤ n) : n < 3 * (a + b - n) := by
   rw [go_quorum_eq] at ha hb; unfold q at ha hb; omega
 
 /-- Non-vacuity: 13 of 19 is a quorum and two such quorums meet in ≥ 7 > 19/3 guardians. -/
 example : goQuorum 19 = 13 ∧ 19 < 3 * (13 + 13 - 19) := by decide
+
+/-! ## "complete for the node" ⇔ "accepted on chain" (signature section)
+
+The node calls a signature list complete for a guardian set when `verifySignatures` holds and there are at least
+`goQuorum` signatures (C01: that is what it stores and broadcasts). The contracts' checks are modelled in
+`Whv/Model/Contract.lean`; their quorum formulas are the translated `solQuorum` / `ralQuorum`. -/
+
+open Whv Whv.Contract
+
+private theorem ral_loop_iff (recover : Bytes → Option Addr) (keys : List Addr) :
+    ∀ (sigs : List Sig) (last : Int),
+      ralSigLoop recover keys sigs last = true ↔ (∀ s ∈ sigs, SigOk recover keys s) ∧ Ascending sigs last := by
+  intro sigs
+  induction sigs with
+  | nil => intro last; simp [ralSigLoop, Ascending]
+  | cons s rest ih =>
+    intro last
+    unfold ralSigLoop
+    by_cases h1 : (s.idx : Int) > last
+    · rw [if_neg (fun hn => hn h1)]
+      cases hk : keys[s.idx]? with
+      | none =>
+        simp only [Bool.false_eq_true, false_iff]
+        intro ⟨h, _⟩
+        have := (h s (by simp)).1
+        rw [List.getElem?_eq_getElem this] at hk
+        cases hk
+      | some k =>
+        simp only
+        have hlt : s.idx < keys.length := by
+          by_cases hl : s.idx < keys.length
+          · exact hl
+          · rw [List.getElem?_eq_none (by omega)] at hk; cases hk
+        by_cases h2 : recover s.sig = some k
+        · rw [if_neg (by simpa using h2), ih]
+          constructor
+          · intro ⟨a, b⟩
+            refine ⟨?_, ⟨by omega, b⟩⟩
+            intro x hx
+            simp at hx
+            rcases hx with rfl | hx
+            · exact ⟨hlt, by rw [h2, hk]⟩
+            · exact a x hx
+          · intro ⟨a, b⟩
+            exact ⟨fun x hx => a x (by simp [hx]), b.2⟩
+        · rw [if_pos h2]
+          simp only [Bool.false_eq_true, false_iff]
+          intro ⟨h, _⟩
+          have := (h s (by simp)).2
+          rw [hk] at this
+          exact h2 this
+    · rw [if_pos h1]
+      simp only [Bool.false_eq_true, false_iff]
+      intro ⟨_, h⟩
+      exact h1 (by have := h.1; omega)
+
+private theorem sol_loop_iff (recover : Bytes → Option Addr) (keys : List Addr) :
+    ∀ (sigs : List Sig) (first : Bool) (last : Nat),
+      solSigLoop recover keys sigs first last = true ↔
+        (∀ s ∈ sigs, SigOk recover keys s) ∧ Ascending sigs (if first then -1 else (last : Int)) := by
+  intro sigs
+  induction sigs with
+  | nil => intro first last; simp [solSigLoop, Ascending]
+  | cons s rest ih =>
+    intro first last
+    unfold solSigLoop
+    by_cases h1 : first = true ∨ s.idx > last
+    · rw [if_neg (fun hn => hn h1)]
+      have hasc : (if first = true then (-1 : Int) else (last : Int)) < (s.idx : Int) := by
+        rcases h1 with h | h
+        · simp [h]; omega
+        · split <;> omega
+      cases hk : keys[s.idx]? with
+      | none =>
+        simp only [Bool.false_eq_true, false_iff]
+        intro ⟨h, _⟩
+        have := (h s (by simp)).1
+        rw [List.getElem?_eq_getElem this] at hk
+        cases hk
+      | some k =>
+        simp only
+        have hlt : s.idx < keys.length := by
+          by_cases hl : s.idx < keys.length
+          · exact hl
+          · rw [List.getElem?_eq_none (by omega)] at hk; cases hk
+        by_cases h2 : recover s.sig = some k
+        · rw [if_neg (by simpa using h2), ih]
+          simp only [Bool.false_eq_true, if_false]
+          constructor
+          · intro ⟨a, b⟩
+            refine ⟨?_, ⟨hasc, b⟩⟩
+            intro x hx
+            simp at hx
+            rcases hx with rfl | hx
+            · exact ⟨hlt, by rw [h2, hk]⟩
+            · exact a x hx
+          · intro ⟨a, b⟩
+            exact ⟨fun x hx => a x (by simp [hx]), b.2⟩
+        · rw [if_pos h2]
+          simp only [Bool.false_eq_true, false_iff]
+          intro ⟨h, _⟩
+          have := (h s (by simp)).2
+          rw [hk] at this
+          exact h2 this
+    · rw [if_pos h1]
+      simp only [Bool.false_eq_true, false_iff]
+      intro ⟨_, h⟩
+      have hf : first = false := by
+        cases first with
+        | true => exact absurd (Or.inl rfl) h1
+        | false => rfl
+      have hle : ¬ s.idx > last := fun hh => h1 (Or.inr hh)
+      have := h.1
+      rw [hf] at this
+      simp at this
+      omega
+
+/-- **Complete for the node ⇒ accepted by both contracts.** A signature list that the node's verification accepts for a
+non-empty guardian set and that reaches the node's quorum passes the Ralph and the Solidity signature checks — for every
+guardian list (repeated keys included) and every recovery oracle. -/
+theorem node_complete_accepted_on_chain (recover : Bytes → Option Addr) (sigs : List Sig) (keys : List Addr)
+    (hne : keys.length ≠ 0) (hv : verifySignatures recover sigs keys = true) (hq : goQuorum keys.length ≤ sigs.length) :
+    ralAccepts ralQuorum recover sigs keys = true ∧ solAccepts solQuorum recover sigs keys = true := by
+  have hV := (C06.verify_iff _ _ _).1 hv
+  have hasc : Ascending sigs (-1) := (C06.ascending_iff _ _).2 ⟨fun s _ => by omega, hV.2.1⟩
+  have hok : ∀ s ∈ sigs, SigOk recover keys s := hV.1
+  rw [go_quorum_eq] at hq
+  constructor
+  · unfold ralAccepts
+    rw [if_neg hne, if_neg (by rw [ral_quorum_eq]; omega)]
+    exact (ral_loop_iff _ _ _ _).2 ⟨hok, hasc⟩
+  · unfold solAccepts
+    rw [if_neg hne, if_neg (by rw [sol_quorum_eq]; omega)]
+    exact (sol_loop_iff _ _ _ _ _).2 ⟨hok, by simpa using hasc⟩
+
+/-- **Accepted on chain ⇒ complete for the node** (guardian sets with distinct keys): whatever either contract accepts, the
+node's verification accepts too and it reaches the node's quorum — so an incomplete VAA is not accepted on chain. -/
+theorem accepted_on_chain_is_node_complete (recover : Bytes → Option Addr) (sigs : List Sig) (keys : List Addr)
+    (hnd : keys.Nodup)
+    (h : ralAccepts ralQuorum recover sigs keys = true ∨ solAccepts solQuorum recover sigs keys = true) :
+    verifySignatures recover sigs keys = true ∧ goQuorum keys.length ≤ sigs.length ∧ keys.length ≠ 0 := by
+  have key : (∀ s ∈ sigs, SigOk recover keys s) → Ascending sigs (-1) → verifySignatures recover sigs keys = true := by
+    intro hok hasc
+    have hp := ((C06.ascending_iff _ _).1 hasc).2
+    exact (C06.verify_iff _ _ _).2 ⟨hok, hp, C06.nodup_implied _ _ _ hnd hok hp⟩
+  rcases h with h | h
+  · unfold ralAccepts at h
+    by_cases h0 : keys.length = 0
+    · rw [if_pos h0] at h; cases h
+    · rw [if_neg h0] at h
+      by_cases hq : ralQuorum keys.length ≤ sigs.length
+      · rw [if_neg (by simpa using hq)] at h
+        obtain ⟨a, b⟩ := (ral_loop_iff _ _ _ _).1 h
+        exact ⟨key a b, by rw [go_quorum_eq]; rw [ral_quorum_eq] at hq; exact hq, h0⟩
+      · rw [if_pos hq] at h; cases h
+  · unfold solAccepts at h
+    by_cases h0 : keys.length = 0
+    · rw [if_pos h0] at h; cases h
+    · rw [if_neg h0] at h
+      by_cases hq : sigs.length < solQuorum keys.length
+      · rw [if_pos hq] at h; cases h
+      · rw [if_neg hq] at h
+        obtain ⟨a, b⟩ := (sol_loop_iff _ _ _ _ _).1 h
+        exact ⟨key a (by simpa using b), by rw [go_quorum_eq]; rw [sol_quorum_eq] at hq; omega, h0⟩
+
+/-- The two contract loops have, in the sources, the shape the model gives them (textual facts, re-extracted every run). -/
+theorem contract_loops_as_modelled : solLoopShape = true ∧ ralLoopShape = true := by decide
+
+/-- Non-vacuity: 3 of 4 guardians, signatures at indices 0, 2, 3 — complete for the node and accepted by both contracts. -/
+example :
+    let rec4 : Bytes → Option Addr := fun s => match s with | [10] => some [1] | [30] => some [3] | [40] => some [4] | _ => none
+    verifySignatures rec4 [⟨0, [10]⟩, ⟨2, [30]⟩, ⟨3, [40]⟩] [[1], [2], [3], [4]] = true ∧
+    ralAccepts ralQuorum rec4 [⟨0, [10]⟩, ⟨2, [30]⟩, ⟨3, [40]⟩] [[1], [2], [3], [4]] = true ∧
+    solAccepts solQuorum rec4 [⟨0, [10]⟩, ⟨2, [30]⟩, ⟨3, [40]⟩] [[1], [2], [3], [4]] = true ∧
+    ralAccepts ralQuorum rec4 [⟨0, [10]⟩, ⟨2, [30]⟩] [[1], [2], [3], [4]] = false := by decide
 
 end Whv.C07
